@@ -335,7 +335,7 @@ fn exec_fresh(prop: &Prop, sc: &Value, scratch: &str) -> RunReport {
 }
 
 fn hang_secs() -> u64 {
-    std::env::var("VERIF_HANG_SECS").ok().and_then(|s| s.parse().ok()).unwrap_or(120)
+    std::env::var("VERIF_HANG_SECS").ok().and_then(|s| s.parse().ok()).unwrap_or(300)
 }
 
 struct Collected {
